@@ -112,14 +112,20 @@ def facts_for(repo="/repo", profile="debug", force=False, log=None):
     if os.path.isdir(final) and not force and all(os.path.exists(os.path.join(final, e)) for e in EXPECTED):
         return final, info
     os.makedirs(os.path.join(CACHE, "facts"), exist_ok=True)
-    lock = open(os.path.join(CACHE, "extract.lock"), "w")
+    # VERIF_EXTRACT_SLOT=<k>: the self-test sweeps extract several scratch trees at once, each worker in its own copy of the warm
+    # target directory (a plain copy: ~110 MB); checks of /repo itself never set it
+    slot = os.environ.get("VERIF_EXTRACT_SLOT") or ""
+    lock = open(os.path.join(CACHE, "extract%s.lock" % (("-" + slot) if slot else "")), "w")
     fcntl.flock(lock, fcntl.LOCK_EX)
     try:
         if os.path.isdir(final) and not force and all(os.path.exists(os.path.join(final, e)) for e in EXPECTED):
             return final, info
         tmp = final + ".tmp%d" % os.getpid()
         shutil.rmtree(tmp, ignore_errors=True)
-        target = os.path.join(CACHE, "target" if profile == "debug" else "target-" + profile)
+        base_target = os.path.join(CACHE, "target" if profile == "debug" else "target-" + profile)
+        target = base_target + ((".slot" + slot) if slot else "")
+        if slot and not os.path.isdir(target) and os.path.isdir(base_target):
+            subprocess.call(["cp", "-a", base_target, target])
         t0 = time.time()
         ok, out, nonce = run_extraction(repo, tmp, target, profile=profile)
         info["extraction_s"] = round(time.time() - t0, 1)
@@ -150,7 +156,7 @@ def facts_for(repo="/repo", profile="debug", force=False, log=None):
         lock.close()
 
 
-def _prune_cache(keep, max_entries=12):
+def _prune_cache(keep, max_entries=40):
     base = os.path.join(CACHE, "facts")
     ents = [os.path.join(base, e) for e in os.listdir(base)]
     ents = [e for e in ents if os.path.isdir(e) and e != keep]
